@@ -831,3 +831,25 @@ Section CollInv.
   Qed.
 
 End CollInv.
+
+Print Assumptions new_collection_inv.
+Print Assumptions coll_find_unchanged.
+Print Assumptions coll_insert_inv.
+Print Assumptions coll_insert_docs.
+Print Assumptions coll_upsert_inv.
+Print Assumptions coll_upsert_docs.
+Print Assumptions coll_delete_inv.
+Print Assumptions coll_delete_docs.
+Print Assumptions coll_delete_succeeds.
+Print Assumptions coll_replace_inv.
+Print Assumptions coll_replace_docs.
+Print Assumptions coll_update_inv.
+Print Assumptions coll_update_docs.
+Print Assumptions coll_update_docs_in.
+Print Assumptions coll_create_index_inv.
+Print Assumptions create_same_is_noop.
+Print Assumptions create_conflicting_fails.
+Print Assumptions coll_drop_index_inv.
+Print Assumptions drop_never_removes_id.
+Print Assumptions rebuild_equal.
+Print Assumptions coll_inv_columns.
